@@ -818,6 +818,10 @@ def oracle_c06(plan, world, cl, ctx):
     for ent in groups.ledger:
         if ent.get("client") is not None and ent["kind"] in ("join_req", "join_resp", "sync_req"):
             by_client.setdefault(ent["client"], []).append(ent)
+    by_sync = {}
+    for ent in groups.ledger:
+        if ent["kind"] == "sync_resp" and ent.get("code") == 0:
+            by_sync.setdefault(ent["client"], []).append(ent)
     for cid, ents in by_client.items():
         m = members.get(cid)
         if m is None:
@@ -832,14 +836,24 @@ def oracle_c06(plan, world, cl, ctx):
                 continue
             jreq = [e for e in ents[:i] if e["kind"] == "join_req"]
             lo = jreq[-1]["seq_write"] if jreq else ent["seq"]
-            # a rebalance starts with the revoke callback: a subscription change
-            # anywhere inside it makes the member restart the join
-            rev = [c["begin"] for c in m.callbacks if c["kind"] == "revoked" and c["begin"] < lo]
-            lo_sub = rev[-1] if rev else 0
+            t_lo = jreq[-1]["t"] if jreq else ent["t"]
+            # A rebalance attempt starts (final commit, revoke callback) well before its
+            # JoinGroup is written, and the member checks its subscription only when
+            # the reply arrives: a subscription change anywhere since the member last
+            # completed a SyncGroup makes it, by design, discard the reply and join
+            # again.  The property excludes that ("unless ... a subscription change
+            # intervenes"), so the window for subscription changes starts there.
+            syn = [e["seq"] for e in by_sync.get(cid, []) if e["seq"] < lo]
+            lo_sub = syn[-1] if syn else 0
             hi = nxt["seq"]
+            # duration faults (broker down, coordinator loading, stale metadata ...)
+            # disturb for as long as they are in effect, not only when they fire
+            slack = kw["request_timeout_ms"] / 1000
             disturbed = any(lo <= s <= hi for s in fault_seqs) or \
                 any(lo_sub <= s <= hi for s in m.sub_changes) or \
-                any(lo - 5 <= e[0] <= hi for e in ctx["env_log"])
+                any(lo - 5 <= e[0] <= hi for e in ctx["env_log"]) or \
+                any(ts - 0.001 <= nxt["t"] and t_lo <= te + slack
+                    for (_k, ts, te) in world.fault_windows if te > ts)
             if disturbed:
                 continue
             if nxt["kind"] == "join_req":
